@@ -122,7 +122,7 @@ Universe == Symbols \cup
     {<<n>> \o c : n \in Wide, c \in Closing}
     \cup (IF Is({"wideO"}) THEN {<<R(t)>> : t \in TextsWide} \cup {<<>>} ELSE {})
     \cup {<<n>> \o c : n \in Deep1 \cup Deep2 \cup Deep3, c \in Closing2}
-    \cup {p \o c : p \in Pairs, c \in Closing} \cup {p \o c : p \in Triples, c \in Closing2}
+    \cup {p \o c : p \in Pairs \cup Triples, c \in Closing2}
 
 InitEnum == tree \in Universe /\ stk = <<>>
 SpecEnum == InitEnum /\ [][UNCHANGED vars]_vars
